@@ -6,13 +6,14 @@ import subprocess
 
 VERIF = os.path.dirname(os.path.dirname(os.path.abspath(__file__)))
 
-# id -> (technique, level text, level note, design ref)
-CHECKS = {
-    "C01": ("TLA+ abstract machine (EvyMachine.tla) enumerated by TLC over family FamExpr; every behaviour replayed on the real parser+evaluator in three spec-rendered whitespace layouts",
-            "Exhaustive model checking of the Evy abstract machine over all expression trees of the family (precedence lattice over tracer calls in all tree shapes, operator x operand table, literals/calls/index/slice with tracers); each terminal state is an expected platform trace that the real evaluator must reproduce byte for byte. Complete within the bounds, oracle independent of the implementation.",
-            "Trusted: TLC, the transcription of docs/spec.md into EvyMachine/EvySyntax, the dumb Go replayer. Numbers are small dyadics; unspecified behaviours (printing -0/inf/nan, % of negatives) are dropped, not guessed.",
-            "DESIGN.md 5 C01"),
-}
+# one JSON file per claimed property in tools/manifest.d/<ID>.json:
+# {"technique": ..., "text": ..., "note": ..., "design_ref": ..., "not_applicable": optional reason}
+CHECKS = {}
+_d = os.path.join(VERIF, "tools", "manifest.d")
+for _f in sorted(os.listdir(_d)):
+    if _f.endswith(".json"):
+        _e = json.load(open(os.path.join(_d, _f)))
+        CHECKS[_f[:-5]] = (_e["technique"], _e["text"], _e["note"], _e.get("design_ref", "DESIGN.md 5"))
 
 NOT_YET = "check not built yet in this round (see DESIGN.md section 10 for the build order)"
 
